@@ -877,6 +877,93 @@ def member_write_stream(run, n_cases):
             run.oracle_ok("member_write")
 
 
+# ----------------------------------------------------------------------------- masks of rank 3 (outside the Lean model)
+def mask3_stream(run, n_cases):
+    """reads and tensordict writes with a boolean mask of rank 3 (before / on / spanning / after the stack dim, full
+    slices before it): the Lean model stops at rank 2, the dense stack is the oracle"""
+    global NESTED_EXTRA
+    rng = run.rng
+    for _ in range(n_cases):
+        NESTED_EXTRA = False
+        rank = rng.choice([2, 3, 3])
+        bs = tuple(rng.choice([1, 2, 2, 3]) for _ in range(rank))
+        n = rng.randint(1, 3)
+        sd = rng.randint(0, rank)
+        full = list(bs)
+        full.insert(sd, n)
+        start = rng.randint(0, len(full) - 3)
+        mshape = full[start:start + 3]
+        p = rng.choice([0.0, 0.3, 0.5, 0.5, 0.8, 1.0])
+        m = torch.tensor([rng.random() < p for _ in range(mshape[0] * mshape[1] * mshape[2])], dtype=torch.bool).reshape(mshape)
+        index = (slice(None),) * start + (m,)
+        if rng.random() < 0.3 and start + 3 < len(full):
+            index = index + (rng.randrange(full[start + 3]),)
+        ms = mk_members(bs, n)
+        L = LazyStackedTensorDict(*ms, stack_dim=sd)
+        D = dense_of(ms, sd)
+        where = "before" if start + 3 <= sd else ("after" if start > sd else "on/spanning")
+        case = {"bs": list(bs), "n": n, "sd": sd, "mask_start": start, "mask": m.reshape(-1).tolist(), "tail": len(index) - start - 1}
+        run.case(("mask3", bs, n, sd, start, str(m.reshape(-1).tolist())))
+        run.count("mask3.where", where)
+        # read
+        try:
+            with time_limit(180):
+                rl = L[index]
+        except TimeoutError:
+            raise
+        except Exception:  # noqa: BLE001
+            rl = None
+        try:
+            rd = D[index]
+        except TimeoutError:      # a slow box is an infrastructure problem (exit 2), never a verdict
+            raise
+        except Exception:  # noqa: BLE001
+            rd = None
+        if rl is not None and rd is not None:
+            try:
+                d = diff_canon(canon(rl), canon(rd))
+            except TimeoutError:      # a slow box is an infrastructure problem (exit 2), never a verdict
+                raise
+            except Exception as e:  # noqa: BLE001
+                run.count("mask3.compare_raises", type(e).__name__)
+                d = None
+            if d:
+                run.oracle_fail("mask3_read", case, f"lazy[rank-3 mask {where} the stack dim] differs from dense: {d}", f"mask3_read:{where}")
+            else:
+                run.oracle_ok("mask3_read")
+        else:
+            run.oracle_ok("mask3_read_raises")
+        # write
+        if rd is None:
+            continue
+        v = value_for(rng, tuple(rd.batch_size))
+        ok = []
+        for x in (L, D):
+            try:
+                with time_limit(180):
+                    x[index] = v.clone()
+                ok.append(True)
+            except TimeoutError:
+                raise
+            except Exception:  # noqa: BLE001
+                ok.append(False)
+        run.count("mask3.write_outcome", f"lazy-{ok[0]}/dense-{ok[1]}")
+        if all(ok):
+            try:
+                d = state_diff(ms, D, sd)
+            except TimeoutError:      # a slow box is an infrastructure problem (exit 2), never a verdict
+                raise
+            except Exception as e:  # noqa: BLE001
+                run.count("mask3.compare_raises", type(e).__name__)
+                d = None
+            if d:
+                run.oracle_fail("mask3_write", case, f"after lazy[rank-3 mask {where} the stack dim] = value: {d}", f"mask3_write:{where}")
+            else:
+                run.oracle_ok("mask3_write")
+        else:
+            run.oracle_ok("mask3_write_raises")
+
+
 # ----------------------------------------------------------------------------- lock / unlock histories (memoised reads must never be stale)
 def _lock_view_diff(L, ms, sd):
     """everything a (possibly memoising) locked stack answers from its members vs the dense stack of the CURRENT members"""
